@@ -685,3 +685,69 @@ def index_guard(ctx):
                               % (vs[:40], expr_str(idx)[:50]))
     if not n:
         ctx.anchor_missing('dynamic element accesses in the reader files')
+
+
+# --------------------------------------------------------------------------- WRITE-ERR-LATCH
+
+@rule('WRITE-ERR-LATCH', ['C15', 'C05'], floor=1)
+def write_err_latch(ctx):
+    """A writer whose range encoder writes straight into the sink (a `RangeEncoder<W>` over the caller's writer, not
+    the in-memory chunk buffer of LZMA2) is interrupted by a sink error in the middle of a symbol: the LZ encoder is
+    left between two steps, and running it again reaches the unchecked match-extension helpers with a start position in
+    front of the window (out-of-bounds read with `optimization`), or quietly completes a stream with bytes missing.
+    Such a writer must latch the failure: `write` tests a sticky bool field before it runs the encoder and stores
+    into it whenever the encoder run failed; `finish` tests the same field before it runs the encoder."""
+    from rules.units import self_field_stores
+    from lzlint.core import self_field_of, switch_edges
+    from rules.io import effective_read
+    F = ctx.facts
+    n = 0
+    for path, adt in F.adts.items():
+        flds = adt['variants'][0]['fields'] if adt.get('variants') else []
+        if not any(fl['ty'].startswith('enc::range_enc::RangeEncoder<') and 'RangeEncoderBuffer' not in fl['ty'] for fl in flds):
+            continue
+        bools = {fl['name'] for fl in flds if fl['ty'] == 'bool'}
+        w = [f for f in F.fns if f.self_adt == path and f.impl and last_seg(f.impl.get('trait') or '') == 'Write' and f.name == 'write']
+        fin = [f for f in F.fns if f.self_adt == path and f.name == 'finish' and not (f.impl and f.impl.get('trait'))]
+        if not w or not fin:
+            continue
+        n += 1
+        key = '%s:sink-error-is-sticky' % last_seg(path)
+
+        def entry_latch(f, before_names):
+            """bool self fields tested by a switch that dominates every call named in before_names and whose true edge only returns Err."""
+            from rules.errors import _only_err_returns_from
+            prov = Prov(f)
+            targets = [bi for bi, t, c in f.calls() if c.name in before_names]
+            out = set()
+            for sb in f.reachable:
+                t = f.blocks[sb]['term']
+                if t['k'] != 'switch':
+                    continue
+                se = switch_edges(f, sb)
+                if not se:
+                    continue
+                cond = prov.operand(t['discr'], 0, '%d:T' % sb)
+                if cond[0] == 'field':
+                    sf = self_field_of(cond)
+                    if sf and len(sf) == 1 and sf[0] in bools and _only_err_returns_from(f, se[1]) and targets and \
+                            all(f.dominates(sb, tb) for tb in targets):
+                        out.add(sf[0])
+            return out
+
+        wf = w[0]
+        body = effective_read(F, wf)
+        body_names = {body.name} if body is not wf else {'fill_window', 'encode_for_lzma1'}
+        lw = entry_latch(wf, body_names)
+        lf = entry_latch(fin[0], {'set_finishing', 'encode_for_lzma1'})
+        stores = {name for b2, si, name, rv in self_field_stores(wf)}
+        common = lw & lf & stores
+        if common:
+            ctx.ok(key, wf.loc(0), 'write and finish test `%s` before they run the encoder; write stores into it' % sorted(common)[0])
+        else:
+            ctx.violation(key, wf.loc(0), 'the range encoder of %s writes straight into the sink, but the writer keeps no record of a failed write '
+                          '(tested at entry of write: %s, of finish: %s, stored by write: %s): after a sink error the encoder is run again from a '
+                          'half-updated state (out-of-bounds match extension with `optimization`, or Ok with bytes missing)'
+                          % (last_seg(path), sorted(lw) or '-', sorted(lf) or '-', sorted(stores & bools) or '-'))
+    if not n:
+        ctx.anchor_missing('writers with a RangeEncoder over the caller\'s sink')
